@@ -273,7 +273,7 @@ Proof.
   rewrite recv_run_app. rewrite (recv_mids mids s1 [(b0, o0, l0)] Hm) by reflexivity.
   set (s2 := set_sr _ s1).
   rewrite (recv_last bl ol ll s2 ([(b0, o0, l0)] ++ pieces_of mids)) by reflexivity.
-  subst s2 s1. unfold set_sr, upd. cbn. rewrite <- app_assoc. reflexivity.
+  subst s2 s1. unfold set_sr, upd. cbn. rewrite <- ?app_assoc. reflexivity.
 Qed.
 
 (* the degenerate run of an empty blob: one piece flagged first and last *)
@@ -355,4 +355,87 @@ Proof.
     + intros H0. assert (Hz : nchunks (blob_len b) ch = 0).
       { unfold nchunks. rewrite H0. apply N.div_small. lia. }
       lia.
+Qed.
+
+(* C09_chunk_reassembly, receiver: feeding the transfer to set_transmission from ANY state
+   stores exactly the blob; true is returned at the last piece only *)
+Lemma recv_transfer : forall b ch s, 1 <= ch ->
+  recv_run (transfer b ch) s =
+  (set_sr ((sr (nd s)) <| stored := Some b |> <| incoming := None |>) s,
+   repeat false (N.to_nat (nchunks (blob_len b) ch)) ++ [true]).
+Proof.
+  intros b ch s Hch.
+  pose proof (transfer_cover b ch Hch) as Hc.
+  pose proof (transfer_length b ch) as Hl.
+  destruct (transfer_shape b ch Hch) as [[Ht H0]|(o0 & l0 & mids & Hm & Hne & Ht)].
+  - rewrite Ht in *. unfold final_piece in *. rewrite H0 in *. cbn [N.eqb] in *.
+    rewrite recv_single. cbn in Hl.
+    assert (Hn : N.to_nat (nchunks 0 ch) = 0%nat) by lia. rewrite Hn. cbn [repeat app].
+    rewrite (cover_assemble b); auto. congruence.
+  - rewrite Ht in *. unfold final_piece in *.
+    destruct (blob_len b =? 0) eqn:E; [lia|].
+    rewrite recv_complete by auto. rewrite (cover_assemble b); auto.
+    + f_equal. cbn [length] in Hl. rewrite app_length in Hl. cbn in Hl.
+      assert (Hn : N.to_nat (nchunks (blob_len b) ch) = Datatypes.S (length mids)) by lia.
+      rewrite Hn. cbn [repeat app]. reflexivity.
+    + rewrite pieces_of_run. discriminate.
+Qed.
+
+(* restarts: whatever was received before, one complete run installs exactly the blob *)
+Lemma recv_after_anything : forall pre b ch s, 1 <= ch ->
+  let r := recv_run (pre ++ transfer b ch) s in
+  stored (sr (nd (fst r))) = Some b /\ incoming (sr (nd (fst r))) = None /\
+  last (snd r) false = true.
+Proof.
+  intros pre b ch s Hch. cbv zeta. rewrite recv_run_app.
+  destruct (recv_run pre s) as [sa da]. rewrite recv_transfer by auto.
+  cbn [fst snd]. unfold set_sr, upd. cbn. repeat split.
+  rewrite app_assoc. apply last_last.
+Qed.
+
+(* interrupted runs: prefixes of the transfer, each beginning again with the first piece *)
+Definition restarts (b : blob) (ch : N) (ks : list nat) : list snap_part :=
+  concat (map (fun k => firstn k (transfer b ch)) ks).
+
+Definition sr_only (s s' : S) : Prop := exists z, s' = set_sr z s.
+
+Lemma sr_only_refl : forall s, sr_only s s.
+Proof.
+  intros s. exists (sr (nd s)). unfold set_sr, upd. destruct s as [n ? ? ? ? ? ?]. cbn. f_equal.
+  destruct n; reflexivity.
+Qed.
+
+Lemma In_firstn_aux : forall A (l : list A) k x, In x (firstn k l) -> In x l.
+Proof.
+  induction l as [|a l IH]; intros k x H; destruct k; cbn in *; auto; try contradiction.
+  destruct H; eauto.
+Qed.
+
+Lemma prefix_run_safe : forall b ch k s, 1 <= ch ->
+  let r := recv_run (firstn k (transfer b ch)) s in
+  (stored (sr (nd (fst r))) = stored (sr (nd s)) \/ stored (sr (nd (fst r))) = Some b) /\
+  sr_only s (fst r) /\
+  (forall i, nth_error (snd r) i = Some true -> stored (sr (nd (fst r))) = Some b).
+Proof.
+  intros b ch k s Hch. cbv zeta.
+  destruct (Nat.le_gt_cases (length (transfer b ch)) k) as [Hk|Hk].
+  { rewrite firstn_all2 by auto. rewrite recv_transfer by auto. cbn [fst snd].
+    unfold set_sr, upd; cbn. repeat split; auto. eexists; reflexivity. }
+  destruct (transfer_shape b ch Hch) as [[Ht H0]|(o0 & l0 & mids & Hm & Hne & Ht)].
+  - rewrite Ht in *. cbn in Hk. assert (k = 0)%nat by lia. subst k. cbn.
+    repeat split; auto. apply sr_only_refl. intros [|i]; discriminate.
+  - rewrite Ht in *. destruct k as [|k].
+    + cbn. repeat split; auto. apply sr_only_refl. intros [|i]; discriminate.
+    + cbn [firstn]. cbn [length] in Hk. rewrite app_length in Hk. cbn in Hk.
+      rewrite firstn_app. replace (k - length mids)%nat with 0%nat by lia. cbn [firstn].
+      rewrite app_nil_r.
+      cbn [recv_run set_transmission]. set (s1 := upd _ s).
+      assert (Hm' : Forall is_mid (firstn k mids)).
+      { apply Forall_forall. intros x Hx. apply (proj1 (Forall_forall _ _) Hm).
+        eapply In_firstn_aux; eauto. }
+      rewrite (recv_mids _ s1 [(b, o0, l0)] Hm') by reflexivity.
+      cbn [fst snd]. subst s1. unfold set_sr, upd; cbn. repeat split; auto.
+      * eexists; reflexivity.
+      * intros [|i] Hi; cbn in Hi; [discriminate|].
+        apply nth_error_In in Hi. apply repeat_spec in Hi. discriminate.
 Qed.
